@@ -255,6 +255,30 @@ def check_composite(ctx, cell, case, x):
         if ok:
             ctx.ev()
             ctx.check(torch.equal(out, seq), "C08.h_composite_sequential", {**cell, "api": name}, case, float((out - seq).abs().max()), 0.0, "composite differs from sequential application of its parts", CHK)
+    # one composite object used, extended with add_constraint, used again (and nested in an outer composite): after every step it
+    # must equal sequential application of the parts it holds at that moment
+    def seq_of(ps, t):
+        for p in ps:
+            t = p(t)
+        return t
+    for split in sorted({1, max(1, len(parts) // 2)}):
+        if split >= len(parts):
+            continue
+        def history():
+            comp = K.CompositeConstraint(parts[:split])
+            outer = K.CompositeConstraint([comp])
+            res = [(comp(xt), seq_of(parts[:split], xt)), (outer(xt), seq_of(parts[:split], xt))]
+            for j in range(split, len(parts)):
+                comp.add_constraint(parts[j])
+                res.append((comp(xt), seq_of(parts[:j + 1], xt)))
+                res.append((outer(xt), seq_of(parts[:j + 1], xt)))
+            return res
+        ok, res = ctx.call(history, "C08.raises", {**cell, "api": "add_constraint_history"}, {**case, "split": split}, checker=CHK)
+        if ok:
+            ctx.ev(len(res))
+            bad = [i for i, (a, b) in enumerate(res) if not torch.equal(a, b)]
+            ctx.check(not bad, "C08.h_composite_sequential", {**cell, "api": "add_constraint_history"}, {**case, "split": split}, {"first_step_that_differs": bad[:1]}, "equal at every step",
+                      "a composite used, then extended with add_constraint, differs from sequential application of its current parts", CHK)
     ctx.nontrivial(cell, case.get("seed"), str(case["parts"]))
 
 
